@@ -145,7 +145,11 @@ func propC02(o *propOpts) *propResult {
 		if d != "" {
 			if r := safeParse(e, s); r.err == nil && r.panicked == nil && !r.hung {
 				if site := knownSite(s, r.nodes, "C02"); site != "" {
-					key = site
+					if s2 := neutralise(site, s); s2 != s {
+						if _, _, d2 := c02Check(e, s2); d2 == "" {
+							key = site
+						}
+					}
 				}
 			}
 			res.fail(key, s, e.name, d)
